@@ -9,6 +9,7 @@ mod foreign;
 mod gen;
 mod pval;
 mod serdecase;
+mod viewer;
 mod sstr;
 mod xmlcase;
 
@@ -108,6 +109,12 @@ fn main() {
             let episodes: usize = arg(&args, "--episodes", "50").parse().unwrap();
             let steps: usize = arg(&args, "--steps", "40").parse().unwrap();
             attrcase::run_map(seed, episodes, steps, &mut out);
+        }
+        "viewer" => {
+            let seed: u64 = arg(&args, "--seed", "1").parse().unwrap();
+            let episodes: usize = arg(&args, "--episodes", "50").parse().unwrap();
+            let steps: usize = arg(&args, "--steps", "14").parse().unwrap();
+            viewer::run(seed, episodes, steps, &mut out);
         }
         "attr-foreign" => {
             let stdin = std::io::stdin();
